@@ -40,6 +40,22 @@ pub fn ceil_div(x: usize, y: usize) -> (r: usize)
     proof { lemma_ceil_div(x as int, y as int); }
 //@end
 
+//@fn id=utils.ceil_mul file=poly-commit/src/utils.rs scope=top name=ceil_mul props=C13,C19
+pub fn ceil_mul(a: usize, b: (usize, usize)) -> (r: usize)
+    requires
+        b.1 > 0,
+        a * b.0 + b.1 <= usize::MAX,
+    ensures
+        r == (a * b.0 + b.1 - 1) / (b.1 as int),                              // name=utils.ceil_mul.value props=C13
+        r * b.1 >= a * b.0, a * b.0 > 0 ==> (r - 1) * b.1 < a * b.0,          // name=utils.ceil_mul.is_ceiling_of_a_times_the_fraction props=C13,C19
+//@body
+//@after start
+    proof {
+        assert(a * b.0 >= 0) by (nonlinear_arith) requires a >= 0, b.0 >= 0;
+        lemma_ceil_div((a * b.0) as int, b.1 as int);
+    }
+//@end
+
 //@fn id=lc_utils.get_num_bytes file=poly-commit/src/linear_codes/utils.rs scope=top name=get_num_bytes props=C13
 pub fn get_num_bytes(n: usize) -> (r: usize)
     ensures
